@@ -13,4 +13,13 @@ open Quic.Generated.LocalIds
 theorem retire_prior_to_only_grows : retirePriorToAssignments =
     ["self.retire_prior_to.max(id_info.sequence_number+1)", "self.retire_prior_to.max(handshake_id_info.sequence_number+1)"] := by decide
 
+/-- After repair f182fcd the frame field is capped at the frame's own sequence number, so no frame carries
+    `retire_prior_to > sequence_number` whatever the lifetimes are (RFC 9000 §19.15). MODEL NOTE: `Conn.LocalIds` still
+    writes the registry's value uncapped — its limit theorem (`unretired_le_peer_limit`) is proved through "every frame
+    carries the registry's Retire Prior To", and `retire_prior_to_le_seq_partial` / `emitted_rpt_le_seq_counterexample`
+    describe exactly the behaviour that the repair removes. For the capped field the clause is checked on every real
+    trace by the RFC-side oracle and the `cid-trace` acceptor (rule `retire-prior-to`), with per-id lifetimes in the
+    scenarios; this lemma pins the capped form so that losing the cap is reported. -/
+theorem frame_retire_prior_to_capped : frameRetirePriorTo = "self.retire_prior_to.min(id_info.sequence_number).into()" := by decide
+
 end Quic.Proofs.Bridge.LocalIds
